@@ -226,6 +226,127 @@ def oracle_sequence(ctx, seq):
             analyse(ctx, case, work, built[i][0], specs[i], method)
 
 
+def call_mpe(ctx, case, Sy, f, spec, method, sel):
+    """fdd.EFDD_mpe with an arbitrary sel_freq object (list / ndarray of float or integer picks): every returned estimate
+    is judged against the envelope of the ONE mode the spectrum holds.  Returns (Fn, Xi, Phi) as arrays or None."""
+    fs, fn, xi = spec["fs"], spec["fn"], spec["xi"]
+    phi = np.array(spec["phi"], float)
+    sel_copy = np.array(sel, copy=True)
+    fr = Frozen(Sy=Sy, freq=f)
+    try:
+        Fn, Xi, Phi, _ = fdd.EFDD_mpe(Sy, f, 1.0 / fs, sel, "per", method=method, DF1=spec["DF1"], DF2=spec["DF2"])
+    except Exception as e:  # noqa: BLE001
+        Fn = e
+    ch = fr.changed() + ([] if np.array_equal(np.array(sel), sel_copy) and np.array(sel).dtype == sel_copy.dtype else ["sel_freq"])
+    if ch:
+        ctx.fail("oracle", "fdd.EFDD_mpe(%s) modifies its input %s" % (method, "/".join(ch)), case, key="C07:%s:mutates-input" % method)
+        fr.restore()
+    if isinstance(Fn, Exception):
+        ctx.fail("oracle", "%s raised %s inside the property's envelope (sel_freq = %r)" % (method, type(Fn).__name__, sel), case, key="C07:%s:raises" % method)
+        return None
+    Fn, Xi = np.ravel(np.asarray(Fn, float)), np.ravel(np.asarray(Xi, float))
+    if len(Fn) != len(sel_copy) or len(Xi) != len(sel_copy) or np.shape(Phi) != (len(phi), len(sel_copy)):
+        ctx.fail("oracle", "%s: %d picks but %d / %d / %s estimates" % (method, len(sel_copy), len(Fn), len(Xi), np.shape(Phi)), case, key="C07:%s:npicks" % method)
+        return None
+    for i in range(len(Fn)):
+        m = mac(Phi[:, i], phi)
+        efn, exi = abs(Fn[i] - fn) / fn, abs(Xi[i] - xi) / xi
+        ctx.extra["worst_fn_err"] = max(ctx.extra.get("worst_fn_err", 0.0), efn if np.isfinite(efn) else 9.9)
+        ctx.extra["worst_xi_err"] = max(ctx.extra.get("worst_xi_err", 0.0), exi if np.isfinite(exi) else 9.9)
+        if not (m >= 0.999 and efn <= 0.025 and exi <= 0.15):
+            ctx.fail("oracle", "%s, pick #%d of sel_freq = %r: fn %.6g (true %.6g, error %.2f %%), xi %.5g (true %.5g, error %.1f %%), MAC %.5f - outside "
+                     "2.5 %% / 15 %% / 0.999" % (method, i, sel, Fn[i], fn, 100 * efn, Xi[i], xi, 100 * exi, m), case, key="C07:%s:pick-envelope" % method)
+    return Fn, Xi, Phi
+
+
+def oracle_multipick(ctx, spec):
+    """Several selected frequencies in ONE call, all on the same exact bell (a few lines apart, overlapping DF2 bands):
+    every estimate meets the envelope and equals the single-pick result of the same call parameters."""
+    fs, nxseg = spec["fs"], spec["nxseg"]
+    assert in_envelope(fs, nxseg, spec["fn"], spec["xi"], spec["DF2"]), spec
+    f, Sy, _, _ = build_sy(fs, nxseg, spec["fn"], spec["xi"], np.array(spec["phi"], float), spec["eps_rel"], spec["gain"])
+    Sy = lay_out(Sy, spec.get("layout", "C"))
+    picks = [spec["sel"] + k * fs / nxseg for k in spec["offsets_lines"]]
+    for method in spec.get("methods", ("EFDD", "FSDD")):
+        case = dict(spec, kind="multipick", method=method, sel_freq=picks)
+        ctx.count(case, nontrivial=len(picks) > 1)
+        ctx.hist("oracle picks per call", len(picks))
+        multi = call_mpe(ctx, case, Sy, f, spec, method, list(picks))
+        if multi is None:
+            continue
+        for i, p in enumerate(picks):
+            single = call_mpe(ctx, dict(case, single_pick=i), Sy, f, spec, method, [p])
+            if single is None:
+                continue
+            if not (abs(multi[0][i] - single[0][0]) <= TOL * abs(single[0][0]) and abs(multi[1][i] - single[1][0]) <= TOL * abs(single[1][0])
+                    and mac(multi[2][:, i], single[2][:, 0]) >= 1 - 1e-9):
+                ctx.fail("oracle", "%s: pick #%d of sel_freq = %r gives fn %.9g, xi %.9g in the multi-pick call but fn %.9g, xi %.9g when picked alone "
+                         "(true %.6g, %.4g)" % (method, i, picks, multi[0][i], multi[1][i], single[0][0], single[1][0], spec["fn"], spec["xi"]), case,
+                         key="C07:%s:multipick" % method)
+
+
+def oracle_intpick(ctx, spec):
+    """A mode on a whole number of hertz picked as Python int, numpy int64 (scalar in a list, integer ndarray) and float:
+    identical estimates, envelope on each; DF2 a float below 1 Hz."""
+    fs, nxseg, fn = spec["fs"], spec["nxseg"], spec["fn"]
+    assert float(fn).is_integer() and 0 < spec["DF2"] < 1 and not float(spec["DF2"]).is_integer(), spec
+    assert in_envelope(fs, nxseg, fn, spec["xi"], spec["DF2"]), spec
+    f, Sy, _, _ = build_sy(fs, nxseg, fn, spec["xi"], np.array(spec["phi"], float), spec["eps_rel"], spec["gain"])
+    k = int(fn)
+    forms = [("float list", [float(k)]), ("int list", [k]), ("numpy int64 list", [np.int64(k)]), ("int64 ndarray", np.array([k], dtype=np.int64)),
+             ("float ndarray", np.array([float(k)])), ("int32 ndarray", np.array([k], dtype=np.int32))]
+    for method in spec.get("methods", ("EFDD", "FSDD")):
+        ref = None
+        for name, sel in forms:
+            case = dict(spec, kind="intpick", method=method, pick_form=name, sel=float(k))
+            ctx.count(case, nontrivial=True)
+            ctx.hist("oracle pick form", name)
+            r = call_mpe(ctx, case, Sy, f, dict(spec, sel=float(k)), method, sel)
+            if r is None:
+                continue
+            if ref is None:
+                ref = (name, r)
+            elif not (abs(r[0][0] - ref[1][0][0]) <= TOL * abs(ref[1][0][0]) and abs(r[1][0] - ref[1][1][0]) <= TOL * abs(ref[1][1][0])):
+                ctx.fail("oracle", "%s: the pick %d Hz given as %s yields fn %.9g, xi %.9g but as %s fn %.9g, xi %.9g (true %g, %.4g; DF2 = %g)" % (
+                    method, k, name, r[0][0], r[1][0], ref[0], ref[1][0][0], ref[1][1][0], fn, spec["xi"], spec["DF2"]), case, key="C07:%s:pick-dtype" % method)
+
+
+def fixed_picks(thorough):
+    """Deterministic multi-pick and integer-pick cases present in both tiers."""
+    multi = [dict(fs=100.0, nxseg=2048, fn=12.3, xi=0.03, phi=[1.0, -0.5, 0.25], eps_rel=1e-10, gain=1.0, DF2=3.0, DF1=0.738, sel=12.25, offsets_lines=[0, 2]),
+             dict(fs=1.0, nxseg=4000, fn=0.21, xi=0.045, phi=[0.5, 1.0], eps_rel=1e-9, gain=1e-4, DF2=0.08, DF1=0.0189, sel=0.2095, offsets_lines=[0, 3, -2],
+                  layout="F")]
+    ints = [dict(fs=50.0, nxseg=2048, fn=2.0, xi=0.04, phi=[1.0, 0.5, -0.25], eps_rel=1e-10, gain=1.0, DF2=0.96, DF1=0.16),
+            dict(fs=20.0, nxseg=2048, fn=3.0, xi=0.02, phi=[-0.5, 1.0], eps_rel=1e-9, gain=25.0, DF2=0.5, DF1=0.12)]
+    if thorough:
+        multi += [dict(fs=256.0, nxseg=1536, fn=30.0, xi=0.02, phi=[1.0, 0.25, 0.5, -0.75], eps_rel=1e-11, gain=1e3, DF2=7.0, DF1=1.2, sel=30.2,
+                       offsets_lines=[0, 1, 2, 0], layout="view"),
+                  dict(fs=12.5, nxseg=8000, fn=0.6, xi=0.05, phi=[1.0, -1.0, 0.5], eps_rel=1e-10, gain=1.0, DF2=0.3, DF1=0.06, sel=0.61, offsets_lines=[-4, 4])]
+        ints += [dict(fs=8.0, nxseg=4096, fn=1.0, xi=0.05, phi=[1.0, 0.75], eps_rel=1e-10, gain=1e-2, DF2=0.45, DF1=0.1),
+                 dict(fs=100.0, nxseg=8192, fn=5.0, xi=0.02, phi=[0.25, -1.0, 0.5], eps_rel=1e-12, gain=1.0, DF2=0.85, DF1=0.2)]
+    return multi, ints
+
+
+def gen_picks(rng):
+    """Random multi-pick / integer-pick points of the envelope."""
+    sp = gen_envelope(rng, big=False)
+    offs = [0] + [int(o) for o in rng.integers(-2, 3, size=int(rng.integers(1, 3)))]
+    multi = dict(sp, offsets_lines=offs)
+    while True:
+        k = int(rng.choice([1, 2, 3, 5]))
+        xi = float(rng.uniform(0.02, 0.05))
+        bw = 2 * xi * k
+        fn_r = float(rng.uniform(0.04, 0.25))
+        nxseg = int(rng.choice([2048, 4000, 4096]))
+        DF2 = float(bw * rng.uniform(4.05, 6.0))
+        if DF2 < 0.98 and 2 * xi * fn_r * nxseg >= 4.02 and fn_r * nxseg / 2 >= 30.2:
+            break
+    ints = dict(fs=k / fn_r, nxseg=nxseg, fn=float(k), xi=xi, phi=sp["phi"], eps_rel=sp["eps_rel"], gain=sp["gain"], DF2=DF2, DF1=bw)
+    if not in_envelope(ints["fs"], nxseg, ints["fn"], xi, DF2):  # rounding of k / fn_r at the edges of the range
+        ints = None
+    return multi, ints
+
+
 FS_DECADES = (0.05, 0.2, 1.0, 100.0, 5000.0, 1e5)
 
 
@@ -693,6 +814,10 @@ def run(ctx):
             oracle_sequence(ctx, spec)
         elif spec["kind"] == "fs-sweep":
             oracle_fs_sweep(ctx, spec, tuple(spec.get("fss", FS_DECADES)))
+        elif spec["kind"] == "multipick":
+            oracle_multipick(ctx, spec)
+        elif spec["kind"] == "intpick":
+            oracle_intpick(ctx, spec)
         else:
             oracle_case(ctx, spec, methods=tuple(spec.get("methods", ("EFDD", "FSDD"))))
     # ---- histories on one array object, sampling rates over many decades (both tiers)
@@ -701,6 +826,17 @@ def run(ctx):
         oracle_sequence(ctx, q)
     for b in sweeps:
         oracle_fs_sweep(ctx, b)
+    # ---- several picks in one call, integer-valued picks (both tiers)
+    multi, ints = fixed_picks(not ctx.quick())
+    for k in range(ctx.n(2, 12)):
+        m_, i_ = gen_picks(rng)
+        multi.append(m_)
+        if i_ is not None:
+            ints.append(i_)
+    for sp in multi:
+        oracle_multipick(ctx, sp)
+    for sp in ints:
+        oracle_intpick(ctx, sp)
     # ---- deterministic corners of the envelope (both tiers)
     for spec in corner_points(not ctx.quick()):
         ctx.hist("oracle corner", (spec["nxseg"], spec["end"], spec["xi"]))
